@@ -26,8 +26,9 @@ INPUT_HOLDERS = {
 }
 
 
-def const_int(op, fl=None, b=None):
-    """literal integer operand, or (with a flow) a constant expression such as `PARTIES as u64 - 1`"""
+def const_int(op, fl=None, b=None, env=None):
+    """literal integer operand, or (with a flow) a constant expression such as `PARTIES as u64 - 1`; `env` gives values to
+    fields of self (role fields such as sender_id) as {field name: int}"""
     if op[0] == "k" and op[4] is not None:
         try:
             return int(op[4])
@@ -36,13 +37,26 @@ def const_int(op, fl=None, b=None):
     if op[0] != "k" and fl is not None:
         from . import intexpr as IE
         e = IE.build(fl, b, op)
-        if not IE.variables(e) and not IE.unknown(e):
+        if IE.unknown(e):
+            return None
+        vs = IE.variables(e)
+        if not vs:
             return IE.evaluate(e, {})
+        if env:
+            val = {}
+            for v in vs:
+                l, projs = v
+                names = [str(p_).split(":", 1)[1] for p_ in projs if ":" in str(p_)]
+                if l == 1 and len(names) == 1 and names[0] in env:
+                    val[v] = env[names[0]]
+                else:
+                    return None
+            return IE.evaluate(e, val)
     return None
 
 
 class Knowledge:
-    def __init__(self, facts, body, parent=None, site=None, call_bb=None):
+    def __init__(self, facts, body, parent=None, site=None, call_bb=None, env=None, input_holders=None):
         """parent/site/call_bb: for a closure body - the Knowledge of the function that creates it, the (bb, j) of the closure
         aggregate (captures) and the block of the particular call whose arguments bind the closure's parameters"""
         self.facts = facts
@@ -51,6 +65,8 @@ class Knowledge:
         self.memo = {}
         self.sends = {}   # nop block -> (sender, receiver) literals or None
         self.parent, self.site, self.call_bb = parent, site, call_bb
+        self.env = env                    # {role field of self: concrete party} for protocols parameterised by roles
+        self.input_holders = input_holders  # {input ordinal: frozenset(parties)} under this env
         self._closures = {}
         self._collect_sends()
 
@@ -143,7 +159,7 @@ class Knowledge:
             for o in fl.origins(t["args"][1], (bb, None)):
                 if o[0] == "agg" and o[3] == "graphs::NodeAnnotation::Send":
                     rv = b.stmts(o[1])[o[2]][2]
-                    s, r = const_int(rv[2][0]), const_int(rv[2][1])
+                    s, r = const_int(rv[2][0], fl, b, self.env), const_int(rv[2][1], fl, b, self.env)
                     for ro in fl.origins(t["args"][0], (bb, None)):
                         if ro[0] == "call" and ro[2] in ("graphs::Node::nop", "graphs::Graph::nop"):
                             self.sends[ro[1]] = (s, r)
@@ -207,6 +223,8 @@ class Knowledge:
         elif cn in ("graphs::Graph::input",):
             res = (frozenset(), False)            # whole argument of the protocol: convention depends on the use
             conv = INPUT_HOLDERS.get(b.root or b.id)
+            if self.input_holders is not None:
+                conv = {k_: (v_, "role table") for k_, v_ in self.input_holders.items()}
             if conv:
                 from . import cfg as C
                 ordinal = sum(1 for b2, t2 in b.calls() if callee_name(t2) == cn and b2 != bb and not b.is_cleanup(b2)
